@@ -165,9 +165,11 @@ def table(f, extra=None):
             if v is None:
                 rets.add(None)
             elif v[0] == "load":
-                rets.add(("load", v[3]))
+                c = env.get(v[3])
+                rets.add(c if c is not None and c[0] == "c" else ("load", v[3]))   # a word known to be the constant k *is* k
             elif v[0] in ("asm", "rmw") and isinstance(v[-1], int) and v[-1] in env:
-                rets.add(("load", v[-1]))
+                c = env.get(v[-1])
+                rets.add(c if c[0] == "c" else ("load", v[-1]))
             else:
                 r = ev(v, env)
                 rets.add(r if r is not None else ("?", ir.expr_str(v)))
